@@ -351,6 +351,10 @@ def oracle(case, R):
     # "index or bool partition vector": the same sets as list / array / listed in another order / mask
     rb_call, l1 = util.partition_form(rb_in, n, case.get("ppack", "list"), case["seed"] + 31)
     rf_call, l2 = util.partition_form(rf_in, n, case.get("ppack", "list"), case["seed"] + 32)
+    if case.get("rb_perm") and rb_in:
+        rb_call, l1 = np.array(rb_in)[case["rb_perm"]], "listed"
+    if case.get("rf_perm") and rf_in:
+        rf_call, l2 = np.array(rf_in)[case["rf_perm"]], "listed"
     R.label("partition:" + (l1 if l1 != "asis" else l2))
     kw = dict(rb=rb_call, rf=rf_call, order=order, pre_eig=pre_eig)
     sols = {}
@@ -550,6 +554,40 @@ def enum_rbd(shard, nshards, tier):
                         k += 1
 
 
+def enum_partitions(shard, nshards, tier):
+    """every listing order of a 4-mode residual-flexibility set (and both of a 2-mode rigid-body set) x the three
+    blocks in every order (all partitions contiguous) and interleaved, uncoupled and coupled damping: the order in
+    which the caller lists the modes of a set does not change the answer"""
+    import itertools
+    k = 0
+    blocks = {"rb": [{"reg": "rb", "m": 1.0}, {"reg": "rb", "m": 0.5}],
+              "el": [{"reg": "under", "m": 1.0, "wh": 0.3, "zeta": 0.02}, {"reg": "over", "m": 2.0, "wh": 0.9, "zeta": 1.6}],
+              "rf": [{"reg": "rf", "m": 1.0, "wh": 20.0 * (1 + 0.37 * j), "zeta": 0.05} for j in range(4)]}
+    layouts = [list(p) for p in itertools.permutations(["rb", "el", "rf"])] + [["mixed"]]
+    for form in ("diag", "nonprop"):
+        for lay in layouts:
+            if lay == ["mixed"]:
+                modes = [blocks["rf"][0], blocks["rb"][0], blocks["el"][0], blocks["rf"][1], blocks["rf"][2],
+                         blocks["el"][1], blocks["rb"][1], blocks["rf"][3]]
+            else:
+                modes = [md for b_ in lay for md in blocks[b_]]
+            for rfp in itertools.permutations(range(4)):
+                for rbp in ([0, 1], [1, 0]):
+                    k += 1
+                    if tier == "quick" and k % 5 and tuple(rfp) not in ((0, 2, 1, 3), (3, 1, 2, 0), (1, 0, 3, 2)):
+                        continue                      # quick tier: a fifth of the grid + the nearly sorted orders
+                    if k % nshards != shard:
+                        continue
+                    mform = ["vec", "mat", "none"][k % 3]
+                    yield {"form": form, "h": 0.05,
+                           "modes": [dict(md, m=1.0) if mform == "none" else dict(md) for md in modes], "nt": 8,
+                           "order": k % 2, "seed": 9000 + k, "mform": mform, "rb_given": True, "perm": False,
+                           "bvec": bool(k % 2), "kvec": bool((k // 2) % 2), "pre_eig": False,
+                           "ic": ["zero", "random", "static"][k % 3], "fscale": 1.0, "icscale": 1.0, "f0zero": False,
+                           "cpl": 0.3, "physnonprop": False, "fpack": "same", "reuse": False, "ppack": "list",
+                           "rf_perm": list(rfp), "rb_perm": rbp}
+
+
 def enum_rb_threshold(shard, nshards, tier):
     """the documented automatic rigid-body rule is strict: rb = nonzero(abs(k) < 0.005).  A mode whose stiffness is
     0.005 exactly (or one ulp above) is elastic; uncoupled systems, rb not given, every mass form, order, kind of
@@ -741,6 +779,7 @@ def first_order_cases(draw):
 PARTS = [
     Part("rbd_grid", oracle, enum=enum_rbd, quick=(4, None), thorough=(4, None), exhaustive=True),
     Part("nt_grid", oracle, enum=enum_nt, quick=(4, None), thorough=(4, None), exhaustive=True),
+    Part("partition_grid", oracle, enum=enum_partitions, quick=(8, None), thorough=(8, None), exhaustive=True),
     Part("rb_threshold_grid", oracle, enum=enum_rb_threshold, quick=(4, None), thorough=(4, None), exhaustive=True),
     Part("diag", oracle, strategy=lambda: cases("diag"), quick=(8, 120), thorough=(16, 2500)),
     Part("nonprop", oracle, strategy=lambda: cases("nonprop"), quick=(8, 80), thorough=(16, 1000)),
